@@ -679,6 +679,9 @@ def jobs(tier):
     from harness import C13_unsupported
 
     js += C13_unsupported.jobs(tier)
+    from harness import color_strings
+
+    js += color_strings.jobs(tier)  # solid / stop colours are written by Color.to_string
     return js
 
 
